@@ -79,7 +79,24 @@ def _inp(run, **extra):
     d = {'settings': run.settings, 'W': run.W, 'mode': run.mode, 'program': run.program}
     if run.program != 'HIP_RA_X' or run.base != mc.hiprax_base():
         d['base'] = run.base
+    if getattr(run, 'settings_first', None):
+        d['settings_first'] = run.settings_first
     return dict(d, **extra)
+
+
+def resim_check(ctx, run, rows):
+    """GEOPHIRES runs (corpus): every row is re-simulated through the client - a row must belong to an iteration whose own
+    sampled inputs simulate successfully, and carry the outputs of those inputs (not of another iteration)"""
+    _, outputs, _ = mc.parse_settings(run.settings, run.base)
+    reports = mc.resimulate(ctx, [(run.program, run.base, r['ins']) for r in rows])
+    for r, rep in zip(rows, reports):
+        if rep is None:
+            ctx.violate('property', 'rowcount:row-of-rejected-sample', 'the result file has a row for sampled values with which the simulation fails: '
+                        'not a successfully simulated iteration', inp=_inp(run, row=r['line']), expected='no row', observed=r['line'][:300])
+        elif r['outs'] != [w for w in mc.report_tokens(rep, outputs) if w is not None]:
+            ctx.violate('property', 'independence:row-outputs-of-other-inputs', 'the output values of a row are not those of its own sampled inputs '
+                        '(re-simulated through the client)', inp=_inp(run, row=r['line']), expected=mc.report_tokens(rep, outputs), observed=r['outs'])
+    ctx.count('rows-resimulated', evaluations=len(rows), nontrivial_keys=[tuple(v for _, v in r['ins']) for r in rows])
 
 
 def settings_checks(ctx, run, bools):
@@ -103,11 +120,17 @@ def settings_checks(ctx, run, bools):
                       lambda f=f, sim=sim: ctx.violate('corr', 'settings:simulated-value', 'the modelled parameter lookup of the simulator differs from the independent one',
                                                        inp=_inp(run), expected=sim, observed='simulated_value (Model/MCSettings.v)')))
         used = next((x for x, y in zip(resolved, f) if '#' in y), None)
+        # what the run really handed to numpy for that field (first traced work package), else the independent prediction
+        k = [g[0] for g in raw if mc.dist_of(g[1])].index(f[0]) if mc.dist_of(f[1]) else None
+        j = next(i for i, y in enumerate(f) if '#' in y) - 2
+        calls = next(([c for c in t['trace'] if c[0] != 'seed'] for t in run.tasks if t['trace']), None)
         try:
-            same = sim is not None and float(used) == float(sim)
-        except ValueError:
-            same = False
-        if src is not None and not same:
+            seen = float(calls[k][1][j]) if calls and k is not None and 0 <= j < len(calls[k][1]) else float(used)
+            same = sim is not None and seen == float(sim)
+            predicted = seen == float(used)
+        except (ValueError, IndexError, TypeError):
+            seen, same, predicted = used, False, True
+        if not same:
             # is `sim` really what the simulator uses?  ask it: run the base file alone and read the echoed parameter
             rep = mc.resimulate(ctx, [(run.program, run.base, [])])[0]
             echo = mc.report_tokens(rep, [f[0]])[0] if rep else None
@@ -115,12 +138,16 @@ def settings_checks(ctx, run, bools):
                 if echo is not None and abs(float(echo) - float(sim)) > 1e-6 * abs(float(sim)):
                     ctx.violate('corr', 'settings:simulator-lookup', f'the simulator echoes {echo} for {f[0]}, the last-occurrence lookup gives {sim}',
                                 inp=_inp(run), expected=sim, observed=echo)
-            except ValueError:
+            except (ValueError, TypeError):
                 pass
-            prefix_hit = src.split(',')[0].strip() != f[0]
-            ctx.violate('property', 'mean-replacement:' + ('prefix-match' if prefix_hit else 'first-occurrence'),
-                        f"INPUT {f[0]} asks for the base-file value ('#') of the parameter; the distribution is given {used.strip()!r}, read from the line "
-                        f'{src.strip()[:60]!r}, while the simulator uses {sim!r} for {f[0]}', inp=_inp(run), expected=sim, observed=used.strip())
+            if predicted and src is not None:      # the two known ways in which the documented lookup (startswith, first line) goes wrong
+                kind = 'prefix-match' if src.split(',')[0].strip() != f[0] else 'first-occurrence'
+            else:
+                kind = 'not-the-documented-line'
+            ctx.violate('property', 'mean-replacement:' + kind,
+                        f"INPUT {f[0]} asks for the base-file value ('#') of the parameter; the distribution is given {seen!r}"
+                        + (f', read from the line {src.strip()[:60]!r}' if predicted and src else f' (the documented lookup gives {str(used).strip()!r})')
+                        + f', while the simulator uses {sim!r} for {f[0]}', inp=_inp(run), expected=sim, observed=seen)
     ctx.count('settings-reader', evaluations=1 + sum(1 for f in raw if any('#' in x for x in f)),
               nontrivial_keys=[tuple(tuple(f[:2]) for f in raw)], hash_inputs={sum(1 for f in raw if any('#' in x for x in f)): 1})
 
@@ -132,7 +159,7 @@ def analyse(ctx, run, bools):
     tasks, ok = run.tasks, run.ok_tasks
     header, rows, _ = mc.parse_result(run.result_text or '\n')
     part = f'{run.mode}-runs'
-    if run.mode in ('pool', 'stalelock') and len(tasks) != iterations:
+    if run.mode in ('pool', 'stalelock', 'api2') and len(tasks) != iterations:
         ctx.violate('property', 'taskcount', f'{len(tasks)} work packages were executed for ITERATIONS = {iterations}',
                     inp=_inp(run), expected=iterations, observed=len(tasks))
     # --- numpy calls vs modelled dispatch (one term per distinct observed call sequence)
@@ -278,6 +305,8 @@ def correspondence(ctx, proofs_ok=True):
             lock_model_check(ctx, run, rows, ok, bools)
         if run.mode == 'stalelock':
             stale_lock_check(ctx, run, rows, ok, bools)
+        if run.program == 'GEOPHIRES' and rows:
+            resim_check(ctx, run, rows)
     failing = fw.kernel_bools(ctx, 'c13', REQ, [b for b, _ in bools], open_scope='string_scope')
     for i in failing:
         bools[i][1]()
@@ -336,7 +365,9 @@ def search(ctx):
 def replay(ctx, data):
     inp = data['input']
     bools = []
-    run = mc.run_job(ctx, 'replay', inp['settings'], W=inp['W'], mode=inp['mode'], program=inp.get('program', 'HIP_RA_X'))
+    first = inp.get('settings_first')
+    run = mc.run_job(ctx, 'replay', first or inp['settings'], W=inp['W'], mode=inp['mode'], program=inp.get('program', 'HIP_RA_X'),
+                     base=inp.get('base'), settings2=inp['settings'] if first else None)
     rows, ok = analyse(ctx, run, bools)
     moments_check(ctx, run, rows)
     for i in fw.kernel_bools(ctx, 'c13r', REQ, [b for b, _ in bools], open_scope='string_scope'):
